@@ -114,6 +114,9 @@ func checkC06(e *RunEnv) *CheckResult {
 				}
 			}
 		}
+		// the staging area rewritten from an empty snapshot while it holds entries
+		cs = append(cs, Case{Base: base, BaseName: "S0", BaseSeed: seedS0(), Steps: []Step{Write("a", "a\n"), Write("d/x", "x\n"), Run("add", "a", "d"), Run("commit", "-m", "c1"), Run("rm", "a", "d"), Run("commit", "-m", "empty"),
+			Write("n1", "n\n"), Write("n2", "n\n"), Run("add", "n1", "n2"), Run("reset", "--mixed", "HEAD@{0}").WithTags("judge-none"), Run("add", "n1").WithTags("judge"), Run("rm", "n1").WithTags("judge")}})
 		// staging areas of 200 and 900 entries (the index file exceeds 4 KiB / 64 KiB)
 		for _, n := range []int{200, 900} {
 			jt := []string{"judge", "large-index"}
